@@ -10,6 +10,7 @@ import (
 	"bytes"
 	"encoding/json"
 	"fmt"
+	"io"
 	"net"
 	"net/http"
 	"net/url"
@@ -212,6 +213,55 @@ type c17Point struct {
 	// the host name) and the Host header the request arrives with
 	NoHostIdentity bool   `json:"no_host_identity,omitempty"`
 	ReqHost        string `json:"req_host,omitempty"`
+	// other request-controlled values a handler might take a destination from when
+	// the field itself is absent or empty: method, Referer, Origin
+	Other   bool   `json:"other_sources,omitempty"`
+	NoDest  bool   `json:"no_destination_field,omitempty"`
+	AsGET   bool   `json:"as_get,omitempty"`
+	Referer string `json:"referer,omitempty"`
+	Origin  string `json:"origin,omitempty"`
+}
+
+// c17Reshape rewrites a site's request: drops the destination field, moves the
+// form into the query of a GET, adds Referer / Origin.
+func c17Reshape(req *http.Request, p c17Point) *http.Request {
+	form := url.Values{}
+	if req.Body != nil && strings.HasPrefix(req.Header.Get("Content-Type"), "application/x-www-form-urlencoded") {
+		b, _ := io.ReadAll(req.Body)
+		form, _ = url.ParseQuery(string(b))
+	}
+	q := req.URL.Query()
+	if p.NoDest {
+		form.Del("login_destination")
+		q.Del("login_destination")
+	}
+	method := req.Method
+	var body io.Reader
+	if p.AsGET {
+		method = "GET"
+		for k, vs := range form {
+			for _, v := range vs {
+				q.Add(k, v)
+			}
+		}
+	} else if len(form) > 0 {
+		body = strings.NewReader(form.Encode())
+	}
+	u := *req.URL
+	u.RawQuery = q.Encode()
+	nr, _ := http.NewRequest(method, u.String(), body)
+	nr.Header = req.Header.Clone()
+	if body == nil {
+		nr.Header.Del("Content-Type")
+	}
+	if p.Referer != "" {
+		nr.Header.Set("Referer", p.Referer)
+	}
+	if p.Origin != "" {
+		nr.Header.Set("Origin", p.Origin)
+	}
+	nr.RemoteAddr, nr.TLS, nr.Host = req.RemoteAddr, req.TLS, req.Host
+	return nr
 }
 
 // c17Variants: every site x a handful of accepted destinations x {host_identity
@@ -232,6 +282,21 @@ func c17VariantRun(site c17Site, p c17Point) (violated bool, key, what, class st
 	req := site.Run(w, p.Dest)
 	if req == nil {
 		return false, "", "", site.Name + "|driver-could-not-start", ""
+	}
+	if p.Other {
+		req = c17Reshape(req, p)
+		resp := w.Do(req)
+		loc := vfWireHeader(resp.Header.Get("Location"))
+		dest := p.Dest
+		if p.NoDest {
+			dest = ""
+		}
+		v, k, wh, cl := c17Judge(site, dest, resp, loc)
+		if v {
+			k += "|destination-from-another-source"
+			wh += fmt.Sprintf(" (destination field absent=%v, as GET=%v, Referer %q, Origin %q)", p.NoDest, p.AsGET, p.Referer, p.Origin)
+		}
+		return v, k, wh, fmt.Sprintf("other-sources|nodest=%v|get=%v|ref=%v|org=%v|%s", p.NoDest, p.AsGET, p.Referer != "", p.Origin != "", cl), ""
 	}
 	req.Host = p.ReqHost
 	resp := w.Do(req)
@@ -363,7 +428,7 @@ func init() {
 	vfRegister(&vfeng.Check{
 		ID:    "C17",
 		Level: "model_checking",
-		Rule:  "exhaustive destination grammar (every prefix of length <=3 over 14 symbols, every C0 control and 9 non-printable Unicode runes at positions 0-2, scheme-like prefixes, absolute URLs starting with this server's own origin text followed by 13 authority-changing tails) x 4 bodies, plus every prefix of length <=2 x 4 bodies x 10 tails that force URL re-serialisation (invalid path characters, broken escapes), plus 9 dot-segment heads x every prefix of length <=2 x 4 bodies, plus 25 encoded spellings of slash / backslash / TAB (HTML character references, JS escapes, double percent-encoding, overlong UTF-8) in 5 positions x 4 bodies, x every driven redirect site (login form/query/GET, TOTP, bootstrap OTP, VIP OTP, federated callback) on the real handlers' success paths; Location (as net/http puts it on the wire; conformance-checked through a real http.Server) resolved with WHATWG rules must stay on keymasterd's origin; plus every site x 10 accepted destinations x {host_identity configured, derived from the host name} x request Host {absent, own, own:443, alias, own:8443}; class = (site, outcome, destination class)",
+		Rule:  "exhaustive destination grammar (every prefix of length <=3 over 14 symbols, every C0 control and 9 non-printable Unicode runes at positions 0-2, scheme-like prefixes, absolute URLs starting with this server's own origin text followed by 13 authority-changing tails) x 4 bodies, plus every prefix of length <=2 x 4 bodies x 10 tails that force URL re-serialisation (invalid path characters, broken escapes), plus 9 dot-segment heads x every prefix of length <=2 x 4 bodies, plus 25 encoded spellings of slash / backslash / TAB (HTML character references, JS escapes, double percent-encoding, overlong UTF-8) in 5 positions x 4 bodies, x every driven redirect site (login form/query/GET, TOTP, bootstrap OTP, VIP OTP, federated callback) on the real handlers' success paths; Location (as net/http puts it on the wire; conformance-checked through a real http.Server) resolved with WHATWG rules must stay on keymasterd's origin; plus every site x 10 accepted destinations x {host_identity configured, derived from the host name} x request Host {absent, own, own:443, alias, own:8443}; plus every single-request site with the destination field absent / empty / ordinary x {as sent, as GET with the form in the query} x Referer {none, same site, foreign, scheme-relative foreign} x Origin {none, foreign}; class = (site, outcome, destination class)",
 		Assumptions: []string{"browser URL resolution is modelled by the WHATWG subset in whatwg.go", "net/http's header sanitisation (CR/LF to space, trim) is applied to recorder output and validated against a real http.Server on loopback for a sample of points and for every violation"},
 		Bounds: func(tier string) map[string]interface{} {
 			return map[string]interface{}{"destinations": len(c17Destinations()), "sites": len(c17Sites())}
@@ -433,6 +498,42 @@ func init() {
 					}
 				}
 			}
+			// the destination field absent or empty while other request-controlled values
+			// (Referer, Origin, method) name another site
+			for _, site := range sites {
+				if site.Name == "oauth2-callback" {
+					continue // two-step site: the destination travels in the first request
+				}
+				for _, d := range []string{"", "/profile/"} {
+					for _, nodest := range []bool{true, false} {
+						if nodest && d != "" {
+							continue
+						}
+						for _, asget := range []bool{false, true} {
+							for _, ref := range []string{"", "https://" + vfHost + "/page.html", "https://evil.example/landing", "//evil.example/x"} {
+								for _, org := range []string{"", "https://evil.example"} {
+									i++
+									if !c.Mine(i) {
+										continue
+									}
+									p := c17Point{Site: site.Name, Dest: d, Other: true, NoDest: nodest, AsGET: asget, Referer: ref, Origin: org}
+									v, key, what, class, herr := c17VariantRun(site, p)
+									c.Eval(1)
+									if herr != "" {
+										c.Res.HarnessErr = herr
+										return
+									}
+									if v {
+										c.Violate(key, what, p)
+									} else {
+										c.Class(class, p)
+									}
+								}
+							}
+						}
+					}
+				}
+			}
 			if c.Shard == 0 {
 				for _, s := range vfRedirectSites {
 					if s.Const {
@@ -452,7 +553,7 @@ func init() {
 			if err := json.Unmarshal(raw, &p); err != nil {
 				return false, err.Error()
 			}
-			if p.NoHostIdentity || p.ReqHost != "" {
+			if p.NoHostIdentity || p.ReqHost != "" || p.Other {
 				for _, site := range c17Sites() {
 					if site.Name == p.Site {
 						v, key, what, class, _ := c17VariantRun(site, p)
